@@ -509,6 +509,7 @@ def run(tier):
     from rules import C14
     C14.rule_R1e(res, prog, prop=PROP, rid="C07.R5e")
     rule_R6(res, prog)
+    rule_R7(res, prog)
     return res.finish()
 
 
@@ -584,3 +585,80 @@ def rule_R6(res, prog):
                              fn.relfile, ln, ln, name, at), file=fn.relfile, line=ln)
         res.instance(rid, "sslGetCipherSpec: pairing %s excluded on all %d row-returning path classes" % (name, nsucc), name not in bad, finding=f_)
     res.floor(rid, 4)
+
+
+def rule_R7(res, prog):
+    """The signature algorithm in force was offered by the peer (RFC 5246 7.4.1.4.1): chooseSigAlgInt returns its choice
+    only on paths where, after the last assignment to it, either canUseSigAlg(choice, key algorithm, peer list) was
+    tested true, or the choice is the certificate's own algorithm (which the caller has already matched against the
+    peer's list)."""
+    from sa import cfgutil as cu
+    rid = "C07.R7"
+    res.rule(rid, "chooseSigAlgInt returns an algorithm only after canUseSigAlg(it, .., peer list) held on the path (or the certificate's own)")
+    fn = prog.fn("chooseSigAlgInt")
+    cert_p = fn.params[0]
+    # the variable returned
+    rets = [(b, ln, x) for b in fn.blocks for i, ln, x in cu.block_exprs(b) if x.get("k") == "ret"]
+    rv = None
+    for b, ln, x in rets:
+        e = strip(x.get("e")) if x.get("e") is not None else None
+        if e is not None and e.get("k") == "var" and e.get("sc") == "l" and "id" in e:
+            # the one that is also passed to canUseSigAlg
+            if any(c.get("fn") == "canUseSigAlg" and (strip(c["a"][0]) or {}).get("id") == e["id"] for b2, l2, c in fn.calls() if c.get("a")):
+                rv = e
+    if rv is None:
+        raise AnalysisBroken("C07.R7: chooseSigAlgInt: returned choice variable not found")
+    seen = set()
+    stack = [(fn.entry, False, [])]
+    bad = None
+    nret = 0
+    while stack and bad is None:
+        bid, valid, path = stack.pop()
+        if (bid, valid) in seen:
+            continue
+        seen.add((bid, valid))
+        b = fn.bmap[bid]
+        done = False
+        for i, ln, x in cu.block_exprs(b):
+            if i == "c":
+                break
+            for m in walk(x):
+                tgt = rhs = None
+                if m.get("k") == "bin" and m["op"] == "=":
+                    tgt, rhs = strip(m["l"]), strip(m["r"])
+                elif m.get("k") == "decl" and "init" in m:
+                    tgt, rhs = m.get("var"), strip(m["init"])
+                if tgt is not None and tgt.get("id") == rv["id"]:
+                    valid = rhs is not None and rhs.get("k") == "var" and rhs.get("id") == cert_p.get("id")
+            if x.get("k") == "ret":
+                e = strip(x.get("e")) if x.get("e") is not None else None
+                if e is not None and e.get("k") == "var" and e.get("id") == rv["id"]:
+                    nret += 1
+                    if not valid:
+                        bad = (ln, path)
+                done = True
+                break
+        if done or bad:
+            continue
+        t = b.get("term")
+        for k, sc in enumerate(b["succ"]):
+            if sc.get("b") is None:
+                continue
+            v2 = valid
+            if t is not None and "c" in t and len(b["succ"]) == 2:
+                for (txt, tr, nd) in cu._cond_atoms(t["c"], k == 0):
+                    nd0 = strip(nd)
+                    if tr and nd0 is not None and nd0.get("k") == "call" and nd0.get("fn") == "canUseSigAlg" and \
+                            (strip(nd0["a"][0]) or {}).get("id") == rv["id"]:
+                        v2 = True
+            stack.append((sc["b"], v2, (path + [t.get("ln") if t else None])[-7:]))
+    f_ = None
+    if bad is not None:
+        f_ = Finding(PROP, rid, fn.name, "algorithm returned without the peer-list test",
+                     "%s:%s chooseSigAlgInt(): `return %s` is reached (via lines %s) on a path where the value last assigned to %s was neither "
+                     "tested with canUseSigAlg(.., peer's signature_algorithms) nor the certificate's own algorithm: the server signs "
+                     "ServerKeyExchange with an algorithm the client never offered" % (fn.relfile, bad[0], rv["n"], bad[1], rv["n"]),
+                     file=fn.relfile, line=bad[0])
+    res.instance(rid, "chooseSigAlgInt: every `return %s` (%d path states) follows a successful canUseSigAlg test or the certificate's algorithm" % (rv["n"], nret),
+                 bad is None, finding=f_)
+    res.floor(rid, 1)
